@@ -2,18 +2,21 @@ package props
 
 import (
 	"context"
-	"os"
 	"fmt"
 	"io"
 	"math/rand"
+	"os"
 	"strings"
 	"sync"
 	"time"
 
 	tpb "github.com/fullstorydev/grpchan/grpchantesting"
+	"github.com/fullstorydev/grpchan/httpgrpc"
 	"google.golang.org/grpc/codes"
 	"google.golang.org/grpc/metadata"
 	"google.golang.org/grpc/status"
+	"google.golang.org/protobuf/proto"
+	"net/http"
 
 	"verifharness/core"
 )
@@ -407,12 +410,166 @@ wait:
 }
 
 func checkC04(e *core.Env) {
+	curEnv = e
 	e.SetRule("for generated small scripts of every kind on the in-process and HTTP carriers: a dry run records the schedule points (library hooks at every frame boundary, handler gates, call start); the script is re-run once per point with the caller's context ended exactly there (manual cancel or a virtual deadline fired by the harness), with handlers that ignore, honour or return their context error; oracle: every unary result / receive returning after the end is the complete real result or a status with the matching code, never nil-with-missing-data, bare io.EOF or a non-status error, later receives likewise; the client must return while an ignoring handler is still parked; the handler's context must end; distinct = (carrier, kind, handler mode, end mode, point name)")
 	e.Assume("over HTTP/1.1 a handler's context is required to end only for unary calls and once the client has closed its send side (net/http detects a vanished client only at request-body EOF)")
 	runC04(e, e.N(36, 300), e.N(40, 80))
 }
 
+// gatedBody delivers its first part, then blocks until the request's context
+// ends and fails with the context's error, like net/http's response bodies do.
+type gatedBody struct {
+	first  []byte
+	ctx    context.Context
+	inRead chan struct{}
+	once   sync.Once
+}
+
+func (b *gatedBody) Read(p []byte) (int, error) {
+	if len(b.first) > 0 {
+		n := copy(p, b.first)
+		b.first = b.first[n:]
+		return n, nil
+	}
+	b.once.Do(func() { close(b.inRead) })
+	<-b.ctx.Done()
+	return 0, b.ctx.Err()
+}
+func (b *gatedBody) Close() error { return nil }
+
+// runC04Extra: (1) handlers that return a bare context error while the caller's
+// context is alive; (2) the context ends while the reply body is only partly there.
+func runC04Extra(e *core.Env) {
+	cs := stdCarriers()
+	defer cs.Close()
+	e.Cases("handler-ctx-error", e.N(60, 600), func(i int, r *rand.Rand) {
+		kind := Kind(i % 4)
+		for _, c := range cs.list {
+			sc := genCancelScript(r, kind, c.HTTP, "ignore", -1)
+			how := pick(r, "canceled", "deadline")
+			sc.Ret = Ret{How: how}
+			run, ok, _ := execScript(c, sc, nil)
+			if !ok {
+				e.Inconclusive("C04 handler-ctx-error %s: watchdog", c.Name)
+				continue
+			}
+			e.Eval(fmt.Sprintf("hctxerr|%s|%s|%s", c.Name, kind, how), true)
+			want := codes.Canceled
+			if how == "deadline" {
+				want = codes.DeadlineExceeded
+			}
+			out := run.ClientOutcome()
+			if _, ret := run.HandlerReturn(); !ret || !out.Seen {
+				continue
+			}
+			if st, isSt := status.FromError(out.Err); out.OK || !isSt || st.Code() != want {
+				e.Violate(fmt.Sprintf("%s/%s/handler-ctxerr-wrong-code", c.Name, kindClass(kind)), fmt.Sprintf("handler returned context error %q while the caller's context was alive; client saw %v, want code %v", how, out.Err, want), witness(run))
+			}
+		}
+	})
+	e.Cases("partial-body", e.N(60, 600), func(i int, r *rand.Rand) {
+		stream := i%2 == 0
+		mode := []string{"cancel", "deadline"}[(i/2)%2]
+		want := codes.Canceled
+		if mode == "deadline" {
+			want = codes.DeadlineExceeded
+		}
+		msgs := []*tpb.Message{{Payload: []byte("m0")}, {Payload: randBytes(r, 10+r.Intn(200))}}
+		var full []byte
+		if stream {
+			full = encodeStream(msgs, &httpgrpc.HttpTrailer{Message: "OK"}).bytes
+		} else {
+			full, _ = proto.Marshal(msgs[1])
+		}
+		cut := 1 + r.Intn(len(full)-1)
+		vd := newVD()
+		var parent context.Context = context.Background()
+		cancel := func() {}
+		if mode == "deadline" {
+			parent = vd
+		} else {
+			parent, cancel = context.WithCancel(parent)
+		}
+		defer cancel()
+		var body *gatedBody
+		ch := &httpgrpc.Channel{BaseURL: mustURL("http://c04.test/"), Transport: rtFunc(func(rq *http.Request) (*http.Response, error) {
+			if rq.Body != nil {
+				go io.Copy(io.Discard, rq.Body)
+			}
+			body = &gatedBody{first: append([]byte{}, full[:cut]...), ctx: rq.Context(), inRead: make(chan struct{})}
+			h := http.Header{}
+			if stream {
+				h.Set("Content-Type", httpgrpc.StreamRpcContentType_V1)
+			} else {
+				h.Set("Content-Type", httpgrpc.UnaryRpcContentType_V1)
+				h.Set("Content-Length", fmt.Sprint(len(full)))
+			}
+			return &http.Response{StatusCode: 200, Header: h, Body: body, Request: rq, ProtoMajor: 1, ProtoMinor: 1}, nil
+		})}
+		var errs []error
+		done := make(chan struct{})
+		go func() {
+			defer close(done)
+			if !stream {
+				errs = append(errs, ch.Invoke(parent, Unary.Method(), &tpb.Message{}, new(tpb.Message)))
+				return
+			}
+			st, err := ch.NewStream(parent, ServerStream.StreamDesc(), ServerStream.Method())
+			if err != nil {
+				errs = append(errs, err)
+				return
+			}
+			st.SendMsg(&tpb.Message{})
+			st.CloseSend()
+			nonNil := 0
+			for k := 0; k < 8 && nonNil < 3; k++ {
+				err := st.RecvMsg(new(tpb.Message))
+				if err != nil {
+					nonNil++
+					errs = append(errs, err)
+				}
+			}
+		}()
+		// wait until the library is blocked reading the rest of the body
+		for k := 0; k < 5000; k++ {
+			if body != nil {
+				select {
+				case <-body.inRead:
+					k = 1 << 30
+				default:
+				}
+			}
+			time.Sleep(200 * time.Microsecond)
+		}
+		if mode == "deadline" {
+			vd.Fire()
+		} else {
+			cancel()
+		}
+		select {
+		case <-done:
+		case <-time.After(30 * time.Second):
+			e.Violate("http/partial-body/not-prompt", fmt.Sprintf("the context ended (%s) while the reply body was partly received (stream=%v); the call did not return", mode, stream), nil)
+			return
+		}
+		e.Eval(fmt.Sprintf("partial-body|%v|%s|%d", stream, mode, cut*8/len(full)), true)
+		for k, err := range errs {
+			st, isSt := status.FromError(err)
+			if err == nil || !isSt || st.Code() != want {
+				which := "unary call"
+				if stream {
+					which = fmt.Sprintf("receive #%d after the end", k)
+				}
+				e.Violate(fmt.Sprintf("http/%s/partial-body/%s", map[bool]string{true: "stream", false: "unary"}[stream], mode), fmt.Sprintf("the context ended (%s) while %d of %d reply-body bytes had arrived: %s returned %v (%T), want a status with code %v", mode, cut, len(full), which, err, err, want), map[string]any{"stream": stream, "mode": mode, "cut": cut, "body_len": len(full), "errors": fmt.Sprint(errs)})
+				break
+			}
+		}
+	})
+}
+
 func runC04(e *core.Env, nScripts, maxHooks int) {
+	curEnv = e
+	runC04Extra(e)
 	inp := NewInproc(&Service{}, carrierOpt{})
 	htt := NewHTTPServer(&Service{}, carrierOpt{})
 	defer inp.Close()
